@@ -36,8 +36,10 @@ import (
 
 type eng struct{}
 
-func (eng) Name() string                   { return "cluster" }
-func (eng) CoqRequire(mode string) string  { return "From Coq Require Import List NArith Bool.\nImport ListNotations.\nFrom RV Require Import Corr.Check_cluster." }
+func (eng) Name() string { return "cluster" }
+func (eng) CoqRequire(mode string) string {
+	return "From Coq Require Import List NArith Bool.\nImport ListNotations.\nFrom RV Require Import Corr.Check_cluster."
+}
 func (eng) CoqCaseType(mode string) string { return "Check_cluster.case" }
 func (eng) CoqRun(mode string) string      { return "Check_cluster.run" }
 func (eng) Rule(mode string) string {
@@ -84,11 +86,11 @@ const shortTimeout = 150 * time.Millisecond
 
 type runner struct {
 	stalled bool
-	c     *clusterlib.Cluster
-	sc    *clusterlib.Script
-	w     int // current worker count of the job
-	tags  map[string]bool
-	notes []string
+	c       *clusterlib.Cluster
+	sc      *clusterlib.Script
+	w       int // current worker count of the job
+	tags    map[string]bool
+	notes   []string
 }
 
 func (r *runner) timeout() time.Duration {
